@@ -33,7 +33,7 @@ def strategy(tier):
     @st.composite
     def s(draw):
         dc = draw(specs.domain_case(tier, kinds=("interior", "interior", "boundary", "boundary", "product",
-                                                 "depproduct", "bproduct"), pdep=0.8,
+                                                 "depproduct", "bproduct"), pdep=0.8, pydef=True,
                                       pvar_choices=(["p", "q"], ["p", "q"], ["p", "q"], ["p"], ["q"])))
         E = dc["E"]
         fv = sorted(rg.free_vars(E))
@@ -45,6 +45,13 @@ def strategy(tier):
             draw(st.integers(1, len(fv) - 1))
         S = draw(st.permutations(fv))[:nfix]
         two = len(S) >= 2 and draw(st.booleans())
+        # f(a, b=default): once a is fixed while b is not, the function is complete and is evaluated with the
+        # default (UserFunction semantics, C13) - supplying b later cannot matter. Only histories in which b is
+        # fixed together with (or instead of) a are comparable with the all-parameters evaluation.
+        pd = [P for n in rg.walk(E) for P in rg.own_params(n) if P.get("pydef")]
+        assume(all(P["var"] not in S or P["var2"] in S for P in pd))
+        if pd:
+            two = False
         return {"dom": dc, "prows": prows, "fix": sorted(S), "two_stage": two,
                 "extra_name": draw(st.integers(0, 3)) == 0, "n": draw(st.sampled_from([1, 4, 9, 16])),
                 "rng": draw(st.integers(0, 2 ** 31 - 1))}
@@ -93,8 +100,9 @@ def run_case(spec, ctx):
         D = build.domain(E)
     # ---- declared variables before evaluation
     nv0 = set(D.necessary_variables) if D.necessary_variables is not None else None
-    if nv0 != set(fv):
-        ctx.violation("necessary-variables", top, f"declared {sorted(nv0) if nv0 is not None else None}, free variables of the expression are {sorted(fv)}")
+    req = rg.required_vars(E)        # variables that only enter through arguments with a Python default are optional
+    if nv0 != set(req):
+        ctx.violation("necessary-variables", top, f"declared {sorted(nv0) if nv0 is not None else None}, free variables of the expression are {sorted(req)}")
     with ctx.lib("partial-evaluation", feature=top):
         if spec["two_stage"]:
             half = len(S) // 2
@@ -103,9 +111,9 @@ def run_case(spec, ctx):
         else:
             D1 = D(**vals_call)
     nv1 = set(D1.necessary_variables) if D1.necessary_variables is not None else None
-    if nv1 != set(R):
+    if nv1 != set(req) - set(S):
         ctx.violation("necessary-variables", top + "|after-evaluation",
-                      f"after fixing {S}: declared {sorted(nv1) if nv1 is not None else None}, expected {R}")
+                      f"after fixing {S}: declared {sorted(nv1) if nv1 is not None else None}, expected {sorted(set(req) - set(S))}")
     if set(D.necessary_variables or ()) != (nv0 or set()):
         ctx.violation("original-changed", top, "necessary_variables of the original domain changed")
     params_all = build.params_points(prows_all)
